@@ -313,6 +313,37 @@ func c17Router(n int) func() {
 	}
 }
 
+// c17RouterNoise: as c17Router, with flow-control frames in front of every telegram: a lost
+// indication when nothing has been sent (count 0, or a count with an empty history), a busy
+// indication, or both. None of them concerns the receive side: the telegrams 0..n-1 must all be
+// handed over, in their order, whatever was in between.
+func c17RouterNoise(n int) func() {
+	return func() {
+		sock := fakesock.New("udp")
+		r, _ := knx.NewRouterOnSocket(sock, knx.RouterConfig{RetainCount: 4})
+		for i := 0; i < n; i++ {
+			switch mc.Choose(5, mc.Free) {
+			case 1:
+				deliverLost(sock, 0)
+			case 2:
+				deliverLost(sock, 2)
+			case 3:
+				deliverBusy(sock, 3, 1)
+			case 4:
+				deliverLost(sock, 1)
+				deliverBusy(sock, 3, 1)
+			}
+			sock.Deliver(&knxnet.RoutingInd{Payload: Msg(i)})
+		}
+		c17Consumer(n, func() (interface{}, bool) { m, ok := r.Inbound().Recv2(); return m, ok }, "router")
+		r.Close()
+	}
+}
+
+func init() {
+	register("both", &h.Scenario{Name: "C17-router-burst3-between-flow-control-frames", Prop: "C17", P: 1, F: 0, D: 1, Run: c17RouterNoise(3), Check: c17Oracle("C17", 3, "router.go:", false)})
+}
+
 func c17GroupTunnel(n int) func() {
 	return func() {
 		sock := fakesock.New("udp")
